@@ -220,7 +220,7 @@ def stepLine (st : DState) (line : String) : DState × String :=
     | some l, some bs =>
       let (outs, r) := feed P0 l Abs.fresh bs
       (st, showOuts outs ++ " end=" ++ (match r with
-        | .ok a => "ok " ++ showPhase a.phase ++ " acc=" ++ toString a.acc.length
+        | .ok _ => "ok"
         | .error e => "err " ++ e.show))
     | _, _ => (st, "bad-op")
   | ["spec", "respread", h] =>
